@@ -289,7 +289,7 @@ void mi_subproc_delete(mi_subproc_id_t subproc_id) {
 
 void mi_subproc_add_current_thread(mi_subproc_id_t subproc_id) {
   mi_heap_t* heap = mi_heap_get_default();
-  if (heap == NULL) return;
+  if (heap == NULL || heap->tld == NULL) return;  // (also when the thread could not be initialized)
   mi_assert(heap->tld->segments.subproc == &mi_subproc_default);
   if (heap->tld->segments.subproc != &mi_subproc_default) return;
   heap->tld->segments.subproc = _mi_subproc_from_id(subproc_id);
